@@ -29,6 +29,9 @@ func c14credential() *KeyCredential {
 		}
 		id = string(b)
 	}
+	if vParam("noid") == 1 {
+		id = "" // no key identifier: ToBytes omits the KeyID entry
+	}
 	dev := guid.GUID{A: vU32("devA"), B: vU16("devB"), C: vU16("devC"), D: vU16("devD"), E: uint64(vU16("devEhi"))<<32 | uint64(vU32("devElo"))}
 	t1, t2 := vU64("lastlogon"), vU64("creation")
 	vAssume(t1 != 0 && t1 <= 0x7FFFFFFFFFFFFFFF)
@@ -104,7 +107,8 @@ func H_C14_tamper_hash() {
 func H_C14_material() {
 	m := c14material()
 	raw := m.ToBytes()
-	var d crypto.RSAKeyMaterial
+	// a reused receiver that already holds a (longer) key
+	d := crypto.RSAKeyMaterial{KeySize: vU32("prev.keysize"), Exponent: vU32("prev.exponent"), Modulus: vBytes("prev.modulus", 12), Prime1: vBytes("prev.p1", 3), Prime2: vBytes("prev.p2", 3)}
 	err := d.FromBytes(raw)
 	vCheck(err == nil, "material/parse-ok")
 	vCheck(d.KeySize == m.KeySize && d.Exponent == m.Exponent, "material/keysize-exponent")
